@@ -321,12 +321,10 @@ theorem saStart_inv (vr : VR) (m m2 : Machine) (rsv : Chip → Nat → Int) (p0 
 /-! ### only the documented errors -/
 
 /-- the documented domain of the placers, second part: constraints mention only vertices of
-`vertices_resources`; every resource exception lists the machine's resources and describes a working
-chip; reservations name a resource of the machine and, when per-chip, a working chip -/
+`vertices_resources`; every resource exception (also one recorded for a dead chip) lists the machine's resources; reservations name a resource of the machine and, when per-chip, a working chip -/
 structure InDomain (vr : VR) (cs : List Constraint) (m : Machine) : Prop where
   known : Known vr cs
   excLen : ∀ e ∈ m.exc, e.2.length = m.res.length
-  excOk : ∀ e ∈ m.exc, m.ok e.1 = true
   resIdx : ∀ r amt at_, Constraint.reserve r amt at_ ∈ cs → r < m.res.length
   resOk : ∀ r amt c, Constraint.reserve r amt (some c) ∈ cs → m.ok c = true
 
@@ -339,7 +337,7 @@ private theorem prefix_doc {vr : VR} {cs : List Constraint} {m : Machine} (dom :
   · unfold applySame at he; rw [hout] at he; simp at he
   · obtain ⟨k, hr⟩ := h2 vr' cs' subs hA
     refine ⟨k, fun p e he => ?_⟩
-    refine prepareLoop_doc (n := m.res.length) cs' m p k ⟨rfl, fun x hx => ⟨dom.excLen x hx, dom.excOk x hx⟩⟩ ?_ e he
+    refine prepareLoop_doc (n := m.res.length) cs' m p k ⟨rfl, fun x hx => dom.excLen x hx⟩ ?_ e he
     intro r a at_ hmem
     have hmem' := hr r a at_ hmem
     exact ⟨dom.resIdx r a at_ hmem', fun c hc => by subst hc; exact dom.resOk r a c hmem'⟩
@@ -1118,7 +1116,6 @@ private theorem exDom : InDomain exVR exCS exM where
     · trivial
     · simp [CKnown, exVR, keys]
   excLen := by intro e he; simp [exM] at he; subst he; rfl
-  excOk := by intro e he; simp [exM] at he; subst he; rfl
   resIdx := by
     intro r amt at_ h; simp [exCS] at h; obtain ⟨rfl, _, _⟩ := h; simp [exM]
   resOk := by intro r amt c h; simp [exCS] at h
